@@ -11,9 +11,9 @@ TECH = "deterministic simulation with fault injection"
 CLAIMED = {
     "C19": dict(
         level="exploration",
-        text="Seeded simulation of a host that injects optimize / clone_data / allocations at step boundaries of running programs on the real BasicGarnishData, under random growth knobs and capacity limits; every root is read back structurally before/after each compaction and an uncompacted twin world must agree step for step. Sampling, not proof: a clean batch is evidence.",
+        text="Seeded simulation of a host that injects optimize (random root multisets incl. roots already on a stack or inside the retained prefix, duplicates, any order) / clone_data / allocations / symbol registrations / retention-point moves at step boundaries of running programs (and before the run starts) on the real BasicGarnishData, under random growth knobs and capacity limits; every root is read back structurally before/after each compaction and an uncompacted twin world must agree step for step. Sampling, not proof: a clean batch is evidence.",
         design="DESIGN.md §5 C19",
-        note="Trusted: the scripted host stub, the structural reader (public getters only), the twin-run comparison; assumes hosts call retain_all_current_data after builds. A refused optimize (Err) gives no verdict for that call.",
+        note="Trusted: the scripted host stub, the structural reader (public getters only), the twin-run comparison; assumes hosts call retain_all_current_data after builds (the retention point may also move later, never below a build boundary). A refused optimize (Err) gives no verdict for that call.",
         technique=TECH + ": seeded compaction/clone schedule at step boundaries + store-full faults, twin-run and structural read-back oracles",
     ),
 }
@@ -22,27 +22,27 @@ CLAIMED["C20"] = dict(
     level="exploration",
     text="Seeded simulation of histories of builds, complete runs, abandoned runs, failed builds, host allocations and compactions into one shared data object (both shipped implementations); every tenant is compared with its solo build (instruction stream modulo offsets, jump ranges, constants) and solo run (result, host-call history, step count, status), and earlier tenants are re-read after every event. Sampling, not proof.",
     design="DESIGN.md §5 C20",
-    note="Trusted: scripted host stub, structural reader, solo twin = same real code in a fresh object. Casts (text/symbol conversions expose jump indices and the shared symbol-name table) are kept out of the tenant corpus. Store-full under a configured capacity is a fault firing, not a verdict.",
+    note="Trusted: scripted host stub, structural reader, solo twin = same real code in a fresh object. Casts (text/symbol conversions expose jump indices and the shared symbol-name table) are kept out of the tenant corpus except a symbol literal of the tenant's own source rendered as text. A tenant whose solo run stops with a stack-discipline error (an unbalanced program, C06's subject) gets no behavioural verdict, only the structural ones. Store-full under a configured capacity is a fault firing, not a verdict.",
     technique=TECH + ": seeded build/run/abandon/failed-build history into one store, solo-twin differential oracle",
 )
 
 CLAIMED["C06"] = dict(
     level="exploration",
-    text="Dynamic half of the property: depth invariants (never below the frame base, exactly one pending operand at EndExpression, same depth at the same instruction on every visited path, flat reapply loops, initial depths restored at End) are evaluated after every step of generated control-flow-heavy programs whose every condition and arm is a host-resolved identifier, with the host's truth assignments swept (all 2^k for k<=6). The static all-paths abstract interpretation named in the quantifier is a different technique and is not built; path coverage is what the simulated host can steer.",
+    text="Dynamic half of the property: depth invariants (never below the frame base, exactly one pending operand at EndExpression, same depth at the same instruction on every visited path, flat reapply loops, initial depths restored at End) are evaluated after every step of (A) every ordered pair of operators (38 binary forms, 8 prefix, 3 suffix) around distinct identifiers, at the top level and inside a called expression, under declining / accepting hosts and five value palettes — swept completely on every invocation — and (B) generated control-flow-heavy programs and sampled operator triples whose every condition and arm is a host-resolved identifier, with the host's truth assignments swept (all 2^k for k<=6). The static all-paths abstract interpretation named in the quantifier is a different technique and is not built; path coverage is what the simulated host can steer.",
     design="DESIGN.md §5 C06",
-    note="Trusted: depth observers (public API; Basic's private chains observed on a clone), scripted host. Side-effect blocks are generated after atoms only and else-chains always get a default arm; the two known-defect shapes are run as explicit seeds and listed in known_findings.json.",
+    note="Trusted: depth observers (public API; Basic's private chains observed on a clone), scripted host. Five recorded findings (D1, D8, D21, D22, D23) are reproduced by explicit scenarios on every run and matched by shape tags computed from the real parse tree (known_findings.json, DESIGN.md §7.2); the generator keeps those shapes out of the random corpus.",
     technique=TECH + ": host-steered path sweep with per-step depth invariants",
 )
 CLAIMED["C07"] = dict(
     level="fault_enumeration",
-    text="For each sampled (program, input, host script) a fault-free run measures the allocations and callbacks of the run; variants then make the data block refuse its k-th slot (k spread over the whole run, every k in the thorough tier up to 428), make the j-th callback fail / decline / churn / lie, compact after every step, vary growth knobs, and restart the program in the same object after an error. Programs are seeded with boundary literals and templates aimed at value-dependent failures; hosts provide operand values of every data type. Every step runs under catch_unwind in address-space-limited child processes; a dead or stalled shard is an abort.",
+    text="For each sampled (program, input, host script) a fault-free run measures the allocations and callbacks of the run; variants then make the data block refuse its k-th slot (k spread over the whole run, every k in the thorough tier up to 428), make the j-th callback fail / decline / churn / lie, compact after every step, vary growth knobs, and restart the program in the same object after an error. Programs are seeded with boundary literals and templates aimed at value-dependent failures; hosts provide operand values of every data type incl. values of the host's own custom type; a value-shape matrix of ~155 000 explicit programs (every sliceable kind x ranges in / out of range / reversed / empty / astronomically large / far beyond the heap, nested one level, x every consumer and operator) is swept completely on every invocation. Every step runs under catch_unwind in address-space-limited child processes; a dead or stalled shard is an abort.",
     design="DESIGN.md §5 C07",
-    note="Only stepping is judged (pipeline rejections/panics are C03, unclaimed). Build profile: optimised with overflow-checks and debug-assertions on. Unbounded-work inputs (numeric ranges of ~2^31 elements materialised by a cast, exponentially shared value trees) are kept out of the corpus and documented as a limit.",
+    note="Only stepping is judged (pipeline rejections/panics are C03, unclaimed). Build profile: optimised with overflow-checks and debug-assertions on. Unbounded work inside one step is judged on explicit isolated scenarios only (own child process, memory limit, deadline): recorded findings D16 / D17; the random corpus keeps such inputs out.",
     technique=TECH + ": fault enumeration over allocation points and callbacks, panic/abort net",
 )
 CLAIMED["C15"] = dict(
     level="exploration",
-    text="Seeded histories (3..400 operations) over the whole data-interface alphabet against an abstract model of independent growable tables, on both shipped implementations; on BasicGarnishData every block gets its own initial size {0,1,2,3,10} and growth policy (FixedSize 1,2,3,7,10 / Multiplicative 2,3) and a quarter of runs a capacity limit; every address ever returned is read back (type, content, iterators, keyed lookup) together with all tables and stacks after every operation (sampled for long histories) and at the end; SimpleGarnishData's interning is checked at every add. The quantifier says 'exhaustively' for short histories: this check samples them instead and says so.",
+    text="Every history of 1..4 operations over an 11-operation alphabet x 8 uniform block settings (initial size 0, 1, 2 x additive 1, 2, multiplicative 2) on BasicGarnishData is swept completely on every invocation; beyond that, seeded histories (3..400 operations) over the whole data-interface alphabet (52 operation kinds: every add_* / parse_add_*, composites, mixed keyed / plain lists, symbol-list merges, conversions, stacks, tables, push_object_to_data_block and the convenience adders outside the trait; boundary scalars and raw symbol values) against an abstract model of independent growable tables, on both shipped implementations; on BasicGarnishData every block gets its own initial size {0,1,2,3,10} and growth policy (FixedSize 1,2,3,7,10 / Multiplicative 2,3) and a quarter of runs a capacity limit; every address ever returned is read back (type, content, iterators, keyed lookup) together with all tables and stacks after every operation (sampled for long histories) and at the end; SimpleGarnishData's interning is checked at every add. The quantifier's 'exhaustively' is met for the 11-operation alphabet up to length 4; longer histories and the full alphabet are sampled.",
     design="DESIGN.md §5 C15",
     note="Trusted: the abstract model, structural reader. Growth policies that cannot make progress are never configured. A refused operation may leave garbage at new addresses only.",
     technique=TECH + ": store-history simulation against a reference model with growth knobs and store-full faults",
@@ -50,7 +50,7 @@ CLAIMED["C15"] = dict(
 
 CLAIMED["C08"] = dict(
     level="exploration",
-    text="The defer_op protocol is an interaction with a second party, so it is simulated with a scripted, recording host: (A) the complete instruction x type-pair matrix (40 instructions, 36 representative values of all 19 data types) is swept on every invocation under hosts {absent, declining, accepting, failing} on both implementations — call count, instruction, operand identity and order, unit result, depth, use of the host's value, absent == declining, no call for defined pairs, the unsupported-types code never escaping; (B) seeded programs whose identifiers resolve to values of every type are monitored step by step against the same table. The matrix part is exhaustive over its finite table; the program part samples.",
+    text="The defer_op protocol is an interaction with a second party, so it is simulated with a scripted, recording host: (A) the complete instruction x type-pair matrix (40 instructions, 43 representative values of all 20 data types incl. the host's custom type) is swept on every invocation under hosts {absent, declining, accepting, failing, accepting after a nested run} on both implementations — call count, instruction, operand identity and order, unit result, depth, use of the host's value, absent == declining, no call for defined pairs, the unsupported-types code never escaping, the program going on with the next instruction; (B) seeded programs whose identifiers resolve to values of every type are monitored step by step against the same table. The matrix part is exhaustive over its finite table; the program part samples.",
     design="DESIGN.md §5 C08",
     note="Trusted: spec/defined_ops.json (which combinations the language defines: recorded from the pinned runtime, compared by hand with the match arms, two hand corrections), the recording host, the structural reader. What a defined operation returns is not judged.",
     technique=TECH + ": scripted second party (host) with recorded call histories over the full operation matrix and seeded programs",
@@ -58,7 +58,7 @@ CLAIMED["C08"] = dict(
 
 CLAIMED["C10"] = dict(
     level="exploration",
-    text="Truthiness and short-circuit evaluation are observed through the host-call history, which is the observation point the property names: (A) 35 representative values of all data types (and a declining host) x 9 testing forms x both implementations on every invocation, (B) seeded control-flow-heavy programs in which every operand is a distinct host-resolved identifier, run under 8 truth assignments per program (falsy = declined / unit / $!). The recorded history (symbols, order, multiplicity) and the final value must equal those of a reference evaluator that interprets the real parse tree with its own value model.",
+    text="Truthiness and short-circuit evaluation are observed through the host-call history, which is the observation point the property names: (A) 43 representative values of all data types (and a declining host) x 9 testing forms x both implementations, and `c && <shape>` / `c || <shape>` for 15 un-bracketed operator shapes x 11 x 11 operand values, on every invocation, (B) seeded control-flow-heavy programs in which every operand is a distinct host-resolved identifier, run under 8 truth assignments per program (falsy = declined / unit / $!). The recorded history (symbols, order, multiplicity) and the final value must equal those of a reference evaluator that interprets the real parse tree with its own value model.",
     design="DESIGN.md §5 C10, §4.1",
     note="Trusted: the reference evaluator's semantics (derived from the builder/runtime sources and cross-checked on probe programs), which abstains outside the core language and when the real run returns a runtime error other than a host failure; the scripted recording host.",
     technique=TECH + ": scripted host with recorded call histories compared with a reference evaluator",
